@@ -41,13 +41,14 @@ fn src_col() -> impl Strategy<Value = ColCfg> {
 }
 
 pub fn mig_case() -> impl Strategy<Value = MigCase> {
-	(proptest::collection::vec(src_col(), 1..=4), any::<bool>()).prop_flat_map(|(mut cols, crafted)| {
+	(proptest::collection::vec(src_col(), 1..=4), any::<bool>(), prop_oneof![2 => Just(0x4242u16), 2 => Just(0xffffu16), 1 => Just(0u16), 1 => any::<u16>()]).prop_flat_map(|(mut cols, crafted, page)| {
 		if crafted {
 			// one uniform column with the identity hash and keys that overflow a 16-bit page
 			for c in cols.iter_mut() {
 				if c.kind == Kind::Hash && !c.rc {
 					c.uniform = true;
-					c.keyset = KeySet::Crafted { page: 0x4242 };
+					// also the first and the last page of the index (boundaries of the index walk)
+					c.keyset = KeySet::Crafted { page };
 					break
 				}
 			}
